@@ -277,8 +277,10 @@ class Runner:
     def __init__(self, part, spec):
         self.part = part
         self.spec = spec
-        self.F = rf.make_field(spec)
-        self.A = rf.Adapter(self.F)
+        self.A = rf.guarded_adapter(part, 'C20', spec, dict(spec=spec, law='neg', args=[0]))
+        if self.A is None:
+            raise UnitAborted
+        self.F = self.A.F
         self.name = rf.field_name(spec)
         self.nsamples = 0
 
@@ -294,14 +296,15 @@ class Runner:
         part.outcomes.add((law, tag if not isinstance(tag, int) or tag < 8 else 'c'))
         if not ok:
             exp = WANT_TXT.get(w[0]) or (f'code {w[1]}' if w[0] in ('elem', 'both') else repr(w[1]))
-            part.violation(f'C20:{law}:{A.kind}{suffix(law, args, w)}' + (':hang' if tag == 'Hang' else ''),
+            rf.note_violation(part, f'C20:{law}:{A.kind}{suffix(law, args, w)}' + (':hang' if tag == 'Hang' else ''),
                            f'{self.name}: {law}{tuple(args)!r}: observed {obs}, expected {exp}',
                            dict(spec=self.spec, law=law, args=list(args)))
             if tag == 'Hang':
                 raise UnitAborted
-        elif self.nsamples < 1 and nontrivial and law in ('truediv', 'pow', 'rsub_int', 'rshift') and A.q > 4:
+        elif self.nsamples < 1 and nontrivial and A.q > 4 and law == ('truediv', 'pow', 'rsub_int', 'rshift', 'itruediv_poly', 'distrib')[A.q % 6] \
+                and (law != 'pow' or args[1] < 0):
             self.nsamples += 1
-            part.sample(dict(field=self.name, law=law, args=list(args), observed=obs))
+            rf.note_sample(part, dict(field=self.name, law=law, args=list(args), observed=obs))
 
 
 def nt(*codes):
@@ -404,6 +407,11 @@ def jobs(tier, seed):
     return [dict(units=b[1]) for b in bins if b[1]]
 
 
+def coverage_extra(tier, seed, total):
+    # representative case per violation key: prefer genuine (degree >= 2 or prime) fields over degree-1 extensions
+    return rf.finalize(total, prefer=lambda d: int(d['spec'].get('mod') is not None and len(d['spec']['mod']) <= 2))
+
+
 def run_job(job):
     part = Part()
     rf.arm_watchdog()
@@ -411,16 +419,15 @@ def run_job(job):
         try:
             run_unit(part, unit)
         except UnitAborted:
-            part.caps.append('a unit was abandoned after a call into the code under test hung (see violation)')
+            part.caps.append('a unit was abandoned: field construction failed or a call into the code under test hung (see violation)')
     return part
 
 
 def replay(case):
     part = Part()
     rf.arm_watchdog()
-    r = Runner(part, case['spec'])
     try:
-        r.check(case['law'], tuple(case['args']))
+        Runner(part, case['spec']).check(case['law'], tuple(case['args']))
     except UnitAborted:
         pass
     return part
